@@ -17,19 +17,24 @@ from vf.checks.re_common import hx, INT_MAX
 
 THM = ["YaraModel.Thm.C02"]
 MANIFEST = dict(
-    technique="Lean 4 specification of the regexp AST (set of end positions, cross-checked against a relational formulation) + theorems on jump splitting, "
-              "atom decomposition and the bytecode VM + spec-level correspondence against the real compiler/scanner + AST tie through the re_ast callback + "
-              "translation validation of the emitted bytecode (real code run by the C VM and by the Lean VM model)",
-    text="proof (partial): Thm/C02.lean proves for ALL buffers and ALL patterns: the specification is self-consistent (ends_iff_Matches), splitting at a jump is exact "
-         "(split_sem: matches of pre ++ [n-m] ++ post are exactly a+g+b with n<=g<=m, which justifies chaining), forward-from-the-atom + exhaustive-backward-from-the-atom "
-         "equals a whole-pattern match (decompose), the emitted bytecode of the epsilon-loop-free hex fragment is sound w.r.t. the specification (vm_sound), and the chain "
-         "bookkeeping is exact under the hypothesis that candidates of a piece arrive in start order (chain_exact_partial; that hypothesis is what finding F13 violates). "
-         "NOT proved: completeness of the VM for all node kinds, atom extraction/Aho-Corasick (D5). The remaining gap is covered by sampling: generated patterns x buffers "
-         "through the real engine vs. the compiled Lean spec (match lists, both directions of the iff), the parser AST tie, and the real bytecode through the Lean VM.",
+    technique="Lean 4: specification of the regexp AST (sets of end positions, cross-checked against a relational formulation), theorems on jump splitting, atom "
+              "decomposition, the chain bookkeeping and the bytecode VM + spec-level correspondence against the real compiler/scanner + AST tie through the re_ast "
+              "callback + translation validation (real bytecode run by the C VM and by the Lean VM model; Lean model of _yr_re_emit compared byte for byte)",
+    text="proof (partial): Thm/C02.lean proves, for ALL hex patterns and ALL buffers: the specification is self-consistent (ends_iff_Matches) and the driver's evaluator "
+         "computes it (driver_evaluates_spec); splitting at a jump is exact (split_sem: pre [n-m] post matches iff pre and post match with a gap in [n,m] - the re-joining rule "
+         "of chained strings); verification around atoms loses and invents nothing when one atom is chosen on every way through the pattern (decompose); the chain "
+         "bookkeeping of scan.c (model of _yr_scan_verify_chained_string_match) never confirms a wrong pair (chain_sound, any arrival order) and confirms every legal pair of a "
+         "two-piece chain under the hypotheses H1-H3 (chain_exact_partial, chain_matches_spec_partial: H1 = candidates in start order is what finding F13 violates, H2 = one "
+         "length per head offset is what finding C02-chain-single-length violates); the bytecode VM model is sound on emitted code for the jump-free fragment with nested "
+         "alternatives (vm_sound_partial). NOT proved: VM soundness with jumps / backward code / the fast matcher, VM completeness, chains of more than two pieces, atom "
+         "extraction and Aho-Corasick. That gap is covered by SAMPLING on every run: generated patterns x buffers through the real engine vs. the compiled Lean specification "
+         "(complete match lists, both directions of the iff), the parser AST tie, the real bytecode through the C VM and the Lean VM model (exact agreement incl. callback "
+         "order), the whole-pattern code run exhaustively vs. the specification, and the Lean emit model vs. the bytes yr_re_ast_emit_code writes.",
     design_ref="DESIGN.md §4 D6/D7, §5 C02",
-    note=core.TB + "The hex/regex printers and the oracle comparator in vf/checks/re_common.py are trusted (the printer is inside the AST tie). "
-                   "Spec decisions: chained strings report one admissible length (the engine picks the first completion); matches never span blocks; "
-                   "each piece of a pattern stays below the 1024-byte window YR_RE_SCAN_LIMIT.")
+    note=core.TB + "The hex printer and the oracle comparator (vf/checks/re_common.py) are trusted (the printer is inside the AST tie). Spec decisions: a chained string reports "
+                   "ONE admissible length; matches never span blocks; every piece stays below the 1024-byte window YR_RE_SCAN_LIMIT. Known findings F13 and "
+                   "C02-chain-single-length (known_findings.json) excuse only MISSED offsets of chained patterns whose pieces have the listed shape; a model/code tie broken "
+                   "without a property-level failing input is reported as `no-failing-input-found`.")
 
 VALS = [0x01, 0x02, 0x03, 0x04, 0x11, 0x41, 0x42, 0x61, 0xAA, 0xBB, 0xCC, 0x00, 0xFF, 0x20, 0x0A]
 JV = [0, 1, 2, 3, 199, 200, 201, 255, 256, 300]
@@ -368,7 +373,7 @@ def run(tier, replay=None):
     core.proof_coverage(chk, lres, THM)
     b = core.build("asan", harness=["h_scan", "h_re"])
     r = core.rng("C02")
-    n = 420 if tier == "quick" else 12000
+    n = 1000 if tier == "quick" else 12000
     cases, metas = [], {}
     for i, (pat, buf) in enumerate(CORPUS):
         cid = "k%d" % i
@@ -559,6 +564,7 @@ def check_fx(chk, b, cases, amap, lres, replay, found_so_far=False):
     if not os.path.exists(os.path.join(core.LEAN, "Driver", "Revm.lean")) or not lres.get("driver_ok"):
         return {"cov": "not built"}
     lines = []
+    orig = {c.split(" ", 1)[0]: c for c in cases}
     for c in cases:
         cid = c.split(" ", 1)[0]
         a = amap.get(cid, "")
@@ -603,7 +609,8 @@ def check_fx(chk, b, cases, amap, lres, replay, found_so_far=False):
                 diffs.append((k, a, m))
         if diffs:
             if bad < 5:
-                chk.violation("fx_%s.json" % cid, {"kind": "real bytecode: C VM result differs from the Lean VM model", "engine": "revm", "harness": "h_re", "case": l[:4000],
+                chk.violation("fx_%s.json" % cid, {"kind": "real bytecode: C VM result differs from the Lean VM model", "engine": "revm", "harness": "h_re", "case": orig.get(cid, l),
+                                                  "revm_case": l[:4000],
                                                   "implementation": ("%s %s" % (cid, fx))[:3000], "model": (mm.get(cid) or "")[:3000],
                                                   "differences": [[list(k), a, m] for k, a, m in diffs[:6]]}, no_input=not found_so_far)
             bad += 1
